@@ -359,22 +359,24 @@ impl TestRunner {
             return Ok(ExecuteResult::Running);
         }
 
-        let sp_lo =
-            self.ram.read().unwrap().ram[256 + self.cpu.get_stack_pointer() as usize + 1] as usize;
-        let sp_hi =
-            self.ram.read().unwrap().ram[256 + self.cpu.get_stack_pointer() as usize + 2] as usize;
-        let will_return_to = 1 + sp_lo + 256 * sp_hi;
-
+        // Run until the subroutine we are in returns. The calls it makes on the way are counted, so the 'rts'
+        // that ends the run is its own, whatever it has pushed on the stack in the meantime
+        let mut nested_calls = 0;
         loop {
-            if self.cpu.get_program_counter() == will_return_to as u16 {
-                return Ok(ExecuteResult::Running);
-            }
+            let opcode = self.ram.read().unwrap().ram[self.cpu.get_program_counter() as usize];
 
             match self.execute_instruction()? {
                 ExecuteResult::Running => {}
                 result => {
                     return Ok(result);
                 }
+            }
+
+            match opcode {
+                0x20 => nested_calls += 1,
+                0x60 if nested_calls == 0 => return Ok(ExecuteResult::Running),
+                0x60 => nested_calls -= 1,
+                _ => {}
             }
         }
     }
